@@ -16,8 +16,13 @@
    pre/cross/post-origin sections of a collection, numbering, clear_*. *)
 From ASV Require Export Base Loc.
 
-Record gene := mkGene { gid : Z; gloc : loc; gcore : list Z }.
-(* gcore: the products for which the gene carries a CORE gene function *)
+Record gene := mkGene { gid : Z; gloc : loc; gcore : list (list Z) }.
+(* gcore: the products (strings = lists of character codes) for which the gene carries a CORE gene function *)
+
+(* core.product == self.product on str: equality of the character lists (NOT substring / prefix) *)
+Definition str_eqb (a b : list Z) : bool := list_eqb Z.eqb a b.
+(* any(core.product == product for core in cores) *)
+Definition smem (product : list Z) (cores : list (list Z)) : bool := existsb (fun c => str_eqb c product) cores.
 
 (* ---------- the two comparators ---------- *)
 Definition pair_lt (a b : Z * Z) : bool :=
@@ -123,7 +128,7 @@ Definition K_REGION := 4.
 
 Record area := mkArea {
   aid : Z; akind : Z; aloc : loc;
-  acore : loc; aprod : Z;          (* protoclusters only *)
+  acore : loc; aprod : list Z;     (* protoclusters only; the product name as character codes *)
   achild : list Z;                 (* child collections, by id *)
   amem : list Z;                   (* cds_children: gene ids in insertion order, each once *)
   adef : list Z }.                 (* definition_cdses (a set; reported sorted) *)
@@ -162,7 +167,7 @@ Fixpoint add_cds (depth : nat) (tbl : list area) (i : Z) (g : gene) : res (list 
       end;
     if akind a =? K_PROTO then
       if negb (contains (acore a) (gloc g)) then Ok tbl2
-      else if zmem (aprod a) (gcore g) then
+      else if smem (aprod a) (gcore g) then
         match find_area tbl2 i with
         | Some a2 => Ok (update_area tbl2 (set_def a2 (add_once (gid g) (adef a2))))
         | None => Err E_Key
@@ -297,19 +302,19 @@ Definition query_ok (q : loc) : bool :=
 Definition spec_members (genes : list gene) (a : area) : list Z :=
   map gid (filter (fun g => contains (aloc a) (gloc g)) genes).
 Definition spec_defs (genes : list gene) (a : area) : list Z :=
-  map gid (filter (fun g => contains (aloc a) (gloc g) && contains (acore a) (gloc g) && zmem (aprod a) (gcore g)) genes).
+  map gid (filter (fun g => contains (aloc a) (gloc g) && contains (acore a) (gloc g) && smem (aprod a) (gcore g)) genes).
 
 Definition same_set (a b : list Z) : bool :=
   forallb (fun x => zmem x b) a && forallb (fun x => zmem x a) b.
 
 (* ---------- encoding ---------- *)
 Definition dGene : dec gene := fun l =>
-  match dPair dZ (dPair dLoc (dList dZ)) l with
+  match dPair dZ (dPair dLoc (dList (dList dZ))) l with
   | Some ((i, (lc, cs)), r) => Some (mkGene i lc cs, r)
   | None => None
   end.
 Definition dArea : dec area := fun l =>
-  match dPair (dPair dZ dZ) (dPair (dPair dLoc dLoc) (dPair dZ (dList dZ))) l with
+  match dPair (dPair dZ dZ) (dPair (dPair dLoc dLoc) (dPair (dList dZ) (dList dZ))) l with
   | Some (((i, k), ((lc, core), (prod, ch))), r) => Some (mkArea i k lc core prod ch [] [], r)
   | None => None
   end.
@@ -386,6 +391,30 @@ Definition ops_areas (ops : list op) : list area :=
 
 Definition area_simple (a : area) : bool := query_ok (aloc a) && (0 <=? lstart (aloc a)).
 
+(* guard of C08_membership_order_independent (the two recorded look-up classes are excluded):
+   every gene is one non-empty part; no gene is strictly nested in another (any two genes are ordered the same way
+   by start and by end - for single-part genes this is "sorted by Feature.__lt__ the ends are non-decreasing");
+   every area is one non-empty part starting at >= 0 and enters the record without members; identifiers are
+   unique; an area is added through add_region exactly when it is a region *)
+Definition le2b (a b : gene) : bool :=
+  (lstart (gloc a) <=? lstart (gloc b)) && (lend (gloc a) <=? lend (gloc b)).
+Definition chain_ok (genes : list gene) : bool :=
+  forallb (fun a => forallb (fun b => le2b a b || le2b b a) genes) genes.
+Definition area_fresh (a : area) : bool :=
+  match amem a, adef a with [], [] => true | _, _ => false end.
+Definition op_kind_ok (o : op) : bool :=
+  match o with
+  | OGene _ => true
+  | OArea a => negb (akind a =? K_REGION)
+  | ORegion a => akind a =? K_REGION
+  end.
+Definition history_guard (ops : list op) : bool :=
+  let genes := ops_genes ops in
+  let areas := ops_areas ops in
+  forallb simple_gene genes && chain_ok genes && unique_ids (map gid genes)
+  && forallb area_simple areas && forallb area_fresh areas && unique_ids (map aid areas)
+  && forallb op_kind_ok ops.
+
 Definition run_C08 (fn : Z) (l : list Z) : list Z :=
   match fn with
   | 1 => (* look-up: genes (insertion order), query, with_overlapping *)
@@ -426,9 +455,7 @@ Definition run_C08 (fn : Z) (l : list Z) : list Z :=
       | Some ((_, (mems, (regs, links))), []) =>
         let genes := ops_genes ops in
         let areas := ops_areas ops in
-        let guard := forallb simple_gene genes
-                     && monotone (sort_by (fun a b => feat_lt (gloc a) (gloc b)) genes)
-                     && forallb area_simple areas in
+        let guard := history_guard ops in
         eBool (state_spec_ok genes areas regs mems links) ++ eBool guard ++ [lookup_class genes]
       | _ => bad_input
       end
